@@ -127,7 +127,7 @@ func inferPatterns(body string, boundVars []string) string {
 			return
 		}
 		t := x.String()
-		if seen[t] {
+		if seen[t] || strings.Contains(t, "(ite ") || strings.Contains(t, "(=> ") || strings.Contains(t, "(and ") || strings.Contains(t, "(or ") || strings.Contains(t, "(not ") {
 			return
 		}
 		// prefer minimal terms: skip if some kid (non-arithmetic application) already covers the same vars
